@@ -1,16 +1,34 @@
 SPECIFICATION Spec
 CONSTANTS
   NVB = 2
-  Hist <- HistA
-  FoUuid <- FoA
+  InitLog <- HistA
+  MaxSeq = 3
+  Keys = {"user"}
+  Kinds = {"mut", "sys", "adv"}
+  OldEvents = FALSE
+  BadEvents = FALSE
+  FoUuid <- Fo10
   Savers = {"p", "c"}
   MaxSaves = 2
   MaxCrash = 1
   MaxAcks = 2
+  MaxGen = 2
+  MaxNotify = 0
+  MaxEnds = 0
+  MaxFail = 0
   AutoReset = "earliest"
+  Finite = FALSE
+  AutoCkpt = FALSE
+  Infos <- NoInfos
+  Info0 <- Info11
+  EndCauses = {}
+  Hold = FALSE
+  AllowClose = FALSE
+  Rollbacks = FALSE
   FailSaves = TRUE
   Focus = TRUE
   Record = FALSE
+  Gaps = {}
   Bugs = {}
 VIEW view
 INVARIANTS C01 C03 C04 C05 C06 C11 C14 StoreAgrees
